@@ -19,22 +19,28 @@ for pid in ids:
         continue
     P = PROPS[pid]
     has_thorough = any(h.get("tier") == "thorough" for h in P["harnesses"])
+    crates = sorted(set(h.get("crate", "core") for h in P["harnesses"]))
+    eng = "kani-cbmc-shadow" if crates == ["shadow"] else "kani-cbmc"
+    tech = "solver-based bounded model checking of the real Rust code (Kani 0.68 -> CBMC 6.11 -> CaDiCaL), counterexamples replayed natively"
+    if "shadow" in crates:
+        tech += ("; harnesses in kani/shadow execute the repository's source TEXT (shadow build of buffered_raft_log.rs / verbatim function slices, regenerated from /repo "
+                 "on every run) against bounded models of the containers and channels it uses (DESIGN.md section 2c)")
     c = {
         "property_id": pid,
         "quick_cmd": f"./check {pid} --tier quick",
         "thorough_cmd": f"./check {pid} --tier thorough",
         "evidence_file": f"evidence/{pid}.json",
         "replay_cmd_template": f"./check {pid} --replay {{path}}",
-        "engine": "kani-cbmc",
+        "engine": eng,
         "level_claimed": {
             "category": "model_checking",
             "text": ("Bounded model checking of the real code: " + P["claim"] +
                      " Every assertion is decided by CBMC/CaDiCaL for ALL inputs inside the bounds recorded per harness in the "
                      "evidence file (unwinding assertions on, vacuity witnesses required); nothing is claimed outside them."),
-            "design_ref": f"DESIGN.md section 4 ({pid})",
+            "design_ref": f"DESIGN.md section 7 (row {pid}: what is decided as built) and section 4 ({pid}: the design-stage plan)",
         },
         "level_note": LEVEL_NOTES.get(pid, "") + " Trusted: " + "; ".join(P["trusted"]) + ". Outside the claim: " + "; ".join(P["outside"]) + ".",
-        "technique": "solver-based bounded model checking of the real Rust code (Kani 0.68 -> CBMC 6.11 -> CaDiCaL), counterexamples replayed natively",
+        "technique": tech,
     }
     if not has_thorough:
         c["thorough_cmd"] = f"./check {pid} --tier thorough"
@@ -61,7 +67,8 @@ m = {
         "add_only": True,
     },
     "engines": [
-        {"name": "kani-cbmc", "path": "kani/core", "serves_properties": [c["property_id"] for c in checks],
+        {"name": "kani-cbmc", "path": "kani/core",
+         "serves_properties": [pid for pid in ids if pid in PROPS and any(h.get("crate", "core") == "core" for h in PROPS[pid]["harnesses"])],
          "kind_free_text": "Kani proof harnesses (out-of-tree crate with path deps on /repo) driving the real d-engine functions with symbolic inputs; CBMC bounded model checking decided by CaDiCaL; runner ./check + tools/vlib.py"},
         {"name": "kani-cbmc-shadow", "path": "kani/shadow",
          "serves_properties": [pid for pid in ids if pid in PROPS and any(h.get("crate") == "shadow" for h in PROPS[pid]["harnesses"])],
